@@ -17,7 +17,7 @@ RULE = (
     "bounded tasks, explicit iterations on finite sources of size {1, w+n-1, w+n, w+n+1, 20}, self-completing runners with explicit "
     "iterations; clients {1,2,4}; ramp-up {none,1,2} (time-based), ramp-up {2,8} inside parallel elements of 2..3 sub-tasks allocated by the "
     "real Allocator; scheduler "
-    "{unthrottled, deterministic, poisson(seeded)}; target {2, 10, 0.25 ops/s, '20 docs/s', '2.5 ops/s', '0.5 ops/s', '12.5 docs/s', interval 0.25}; weight/unit {(1,ops),(5,docs)} incl. "
+    "{unthrottled, deterministic, poisson(seeded)}; target {2, 10, 0.25 ops/s, '20 docs/s', '2.5 ops/s', '0.5 ops/s', '12.5 docs/s', interval 0.25}; weight/unit {(1,ops),(5,docs),(3,ops)} incl. requests the runner reports as unsuccessful (first / second / all) and "
     "unit mismatch against an ops/s target; service-time words {(1/16), (1/2), (1, 1/16), (3)}. "
     "non-trivial = more than one request per client; distinct = configuration"
 )
@@ -37,7 +37,7 @@ def configs(tier):
         WORDS = [(0.0625,), (0.5,), (1.0,), (3.0,), (1.0, 0.0625), (0.0625, 3.0), (0.5, 0.5, 3.0), (3.0, 0.0625, 0.0625)]
     targets = [None, ("det", 2), ("det", 10), ("det", "20 docs/s"), ("det", ("interval", 0.25)), ("poisson", 2), ("poisson", 10),
                ("det", "2.5 ops/s"), ("det", "0.5 ops/s"), ("det", "12.5 docs/s"), ("det", 0.25)]
-    wus = [(1, "ops"), (5, "docs")]
+    wus = [(1, "ops"), (5, "docs"), (3, "ops"), (5, "docs", (0,)), (3, "ops", (0, 1, 2, 3, 4, 5)), (5, "docs", (1,))]
     for clients in ((1, 2, 4) if tier == "quick" else (1, 2, 3, 4)):
         for word in WORDS:
             for tgt in targets:
@@ -45,6 +45,13 @@ def configs(tier):
                     if tgt and isinstance(tgt[1], str) and wu[1] != tgt[1].split()[1].split("/")[0]:
                         continue
                     if tgt and tgt[1] in ("2.5 ops/s", "0.5 ops/s", "12.5 docs/s", 0.25) and tier == "quick" and (clients == 4 or word not in (WORDS[0], WORDS[2])):
+                        continue
+                    if wus.index(wu) >= 2:
+                        # runners reporting several "ops" per request, and requests the runner reports as unsuccessful (with their weight):
+                        # pacing and counts are those of any other request
+                        if tgt and tgt[0] == "det" and word in (WORDS[0], WORDS[2]):
+                            for w, n in ((None, 3), (1, 3)):
+                                yield ("iter", clients, word, tgt, wu, (w, n), None)
                         continue
                     for w in (None, 0, 1, 2, 3):
                         for n in (1, 2, 3):
@@ -116,7 +123,8 @@ class CompletingRunner:
 
 
 def build(cfg):
-    kind, clients, word, tgt, (weight, unit), lc, ramp = cfg
+    kind, clients, word, tgt, wu, lc, ramp = cfg
+    weight, unit = wu[:2]
     e = loadgen.setup()
     tparams = {}
     task_kw = {}
@@ -129,6 +137,8 @@ def build(cfg):
         if sched == "poisson":
             task_kw["schedule"] = "poisson"
     op_params = {"weight": weight, "unit": unit}
+    if len(wu) > 2:
+        op_params["unsuccessful-at"] = list(wu[2])  # the runner reports success=False (with its weight) for these invocations
     if kind == "time-source":
         wt, m = lc
         task_kw["warmup_time_period"] = wt
@@ -166,7 +176,8 @@ def build(cfg):
 
 
 def check(cfg, res):
-    kind, clients, word, tgt, (weight, unit), lc, ramp = cfg
+    kind, clients, word, tgt, wu, lc, ramp = cfg
+    weight, unit = wu[:2]
     e = loadgen.setup()
     N, W = e["metrics"].SampleType.Normal, e["metrics"].SampleType.Warmup
     task, allocs, behaviour = build(cfg)
@@ -304,7 +315,7 @@ def check(cfg, res):
                 break
     nreq = len(r.samples)
     res.case(
-        case_repr={"loop": kind, "clients": clients, "service_times": list(word), "target": tgt, "weight_unit": [weight, unit], "loop_params": lc, "ramp_up": ramp}
+        case_repr={"loop": kind, "clients": clients, "service_times": list(word), "target": tgt, "weight_unit": [weight, unit], "unsuccessful_at": list(wu[2]) if len(wu) > 2 else [], "loop_params": lc, "ramp_up": ramp}
         if res.sample_now(4999)
         else None,
         nontrivial_key=cfg if nreq > clients else None,
@@ -314,7 +325,7 @@ def check(cfg, res):
         res.violation(
             f"schedule:{v[0]}:{kind}" + (":unit-mismatch" if tgt and interval is not None and f"{unit}/s" != "ops/s" and not isinstance(tgt[1], str) else ""),
             f"{kind} clients={clients} service_times={list(word)} target={tgt} weight/unit={weight}/{unit} params={lc} ramp-up={ramp}: {v[1]}",
-            {"cfg": [kind, clients, list(word), list(tgt) if tgt else None, [weight, unit], list(lc), ramp]},
+            {"cfg": [kind, clients, list(word), list(tgt) if tgt else None, [weight, unit] + ([list(wu[2])] if len(wu) > 2 else []), list(lc), ramp]},
         )
 
 
@@ -399,5 +410,6 @@ def replay(data):
     if c[3]:
         val = c[3][1]
         tgt = (c[3][0], tuple(val) if isinstance(val, list) else val)
-    check((c[0], c[1], tuple(c[2]), tgt, tuple(c[4]), tuple(c[5]), c[6]), res)
+    wu = tuple(c[4][:2]) + ((tuple(c[4][2]),) if len(c[4]) > 2 else ())
+    check((c[0], c[1], tuple(c[2]), tgt, wu, tuple(c[5]), c[6]), res)
     return [v for lst in res.violations.values() for v in lst]
